@@ -111,7 +111,7 @@ def generate_and_run(seed, cfg):
         if not live or r < 0.35:
             op = W.gen_constructor(rng, at, live)
         elif r < 0.85:
-            op = W.gen_derivation(rng, at, live)
+            op = W.gen_derivation(rng, at, live, ex.slots)
         elif r < 0.9:
             op = W.gen_restart(rng, live)
         else:
